@@ -6586,7 +6586,13 @@ fn regular_serialize_vec<T: Serialize>(
 ) -> Result<(), SavefileError> {
     let l = items.len();
     serializer.write_usize(l)?;
+
+    // Note, zero-sized items must still be serialized: a type that is zero-sized
+    // in memory does not have to be empty in its serialized form (for example 'Canary1').
     if std::mem::size_of::<T>() == 0 {
+        for item in items {
+            item.serialize(serializer)?;
+        }
         return Ok(());
     }
 
